@@ -114,6 +114,28 @@ func (c *Ctx) genC09() {
 			}
 		}
 	}
+	// one 3DES block whose padding byte is out of range for its 8-byte block, and a correctly encrypted assertion delivered
+	// to an SP whose own key is not RSA (or is absent): nothing to decrypt with — an error, never a panic
+	for _, rsig := range []string{"none", "idp"} {
+		for _, entry := range []string{"xml", "post"} {
+			for _, wrap := range []string{"b-3des-pad00", "b-3des-pad08", "b-3des-pad09", "b-3des-pad10", "b-3des-pad12", "b-3des-pad16"} {
+				cfg := baseCfg()
+				r := baseResp(cfg, now)
+				r.Sig = rsig
+				r.Entries[0].Wrap = wrap
+				c.count("c09-no-assertion-ciphertext", wrap)
+				c.runSP(spCase{cfg: cfg, now: now, ids: []string{"id-req1"}, url: cfg.Acs, r: r, lex: 0, entry: entry})
+			}
+			for _, spKey := range []string{"ec", "none"} {
+				cfg := baseCfg()
+				r := baseResp(cfg, now)
+				r.Sig = rsig
+				r.Entries[0].Wrap = "b-spkey"
+				c.count("c09-no-assertion-ciphertext", "sp-key-"+spKey)
+				c.runSP(spCase{cfg: cfg, now: now, ids: []string{"id-req1"}, url: cfg.Acs, r: r, lex: 0, entry: entry, spKey: spKey})
+			}
+		}
+	}
 	c.c09Fuzz()
 	c.c09Bombs()
 	c.c09Metadata()
